@@ -295,6 +295,41 @@ pub fn build(m: &Model, tape: &[u8]) -> Built {
     Built { subject, aux, unknown, edits }
 }
 
+/// ISO 32000-1 7.9.4: D:YYYYMMDDHHmmSSOHH'mm' with defaults month 1, day 1, the rest 0; no offset = unknown (as UT).
+pub fn parse_date(s: &[u8]) -> Option<(u32, u32, u32, u32, u32, u32, u8, u32, u32)> {
+    let s = s.strip_prefix(b"D:")?;
+    let digits = s.iter().take_while(|b| b.is_ascii_digit()).count();
+    let num = |from: usize, len: usize, default: u32| -> Option<u32> {
+        if digits >= from + len {
+            std::str::from_utf8(&s[from..from + len]).ok()?.parse().ok()
+        } else if digits <= from {
+            Some(default)
+        } else {
+            None
+        }
+    };
+    let (y, mo, d, h, mi, sec) = (num(0, 4, 0)?, num(4, 2, 1)?, num(6, 2, 1)?, num(8, 2, 0)?, num(10, 2, 0)?, num(12, 2, 0)?);
+    if digits < 4 {
+        return None;
+    }
+    let rest = &s[digits.min(14)..];
+    let (rel, tzh, tzm) = match rest.first() {
+        None => (b'Z', 0, 0),
+        Some(&o @ (b'+' | b'-' | b'Z')) => {
+            let z = &rest[1..];
+            let two = |b: &[u8]| -> Option<u32> { std::str::from_utf8(b.get(0..2)?).ok()?.parse().ok() };
+            let tzh = if z.is_empty() { 0 } else { two(z)? };
+            let tzm = match z.get(2) {
+                Some(b'\'') if z.len() > 3 => two(&z[3..])?,
+                _ => 0,
+            };
+            if tzh == 0 && tzm == 0 { (b'Z', 0, 0) } else { (o, tzh, tzm) }
+        }
+        Some(_) => return None,
+    };
+    Some((y, mo, d, h, mi, sec, rel, tzh, tzm))
+}
+
 fn first_diff(a: &Canon, b: &Canon, path: &str) -> Option<String> {
     let tr = |c: &Canon| crate::engine::runner::truncate(&format!("{:?}", c), 100);
     match (a, b) {
@@ -430,8 +465,9 @@ pub fn check_case(m: &Model, tape: &[u8], strict: bool, info: &mut CaseInfo) -> 
     if let Some(d) = first_diff(&c1, &c2, "") {
         return Err(fail(format!("c15:{}:not-idempotent:{}", m.name, top_key(&d)), format!("write(read(p1)) differs from p1 at {}", d)));
     }
-    // (B) catch-all models keep every entry
-    if m.catch_all {
+    // (B) catch-all models keep every entry; for the other dictionary models the same comparison runs over the entries
+    // the model recognises (what a correct reader would have put into the value that is written)
+    if m.shape != Shape::Scalar {
         if let (Some(e0), Some(e1)) = (entries_of(&c0), entries_of(&c1)) {
             if !b.unknown.is_empty() {
                 info.label("catch-all-with-unknown-entries");
@@ -443,6 +479,9 @@ pub fn check_case(m: &Model, tape: &[u8], strict: bool, info: &mut CaseInfo) -> 
                 // deep() does not follow these back-pointers; as entries they are compared as written
                 let ks = String::from_utf8_lossy(k).to_string();
                 let is_unknown = b.unknown.iter().any(|u| u.as_slice() == k.as_slice());
+                if !m.catch_all && (is_unknown || schema::unrecognised(m, &ks)) {
+                    continue;
+                }
                 match e1.iter().find(|(k2, _)| k2 == k) {
                     None => {
                         let empty = matches!(v0, Canon::Null) || matches!(v0, Canon::Array(a) if a.is_empty()) || matches!(v0, Canon::Dict(d) if d.is_empty()) || matches!(v0, Canon::Name(n) if n == b"@missing");
@@ -461,9 +500,13 @@ pub fn check_case(m: &Model, tape: &[u8], strict: bool, info: &mut CaseInfo) -> 
                             };
                             let (a, b2) = (unwrap1(v0), unwrap1(v1));
                             match (&a, &b2) {
-                                (Canon::Str(x), Canon::Str(_)) if x.starts_with(b"D:") => true,
-                                (Canon::Num(_), _) | (Canon::Name(_), _) | (Canon::Str(_), _) | (Canon::Bool(_), _) => a == b2,
-                                (Canon::Array(x), Canon::Array(y)) if x.iter().all(|e| matches!(e, Canon::Num(_) | Canon::Name(_))) => x == y,
+                                (Canon::Str(x), Canon::Str(y)) if x.starts_with(b"D:") => match (parse_date(x), parse_date(y)) {
+                                    (Some(dx), Some(dy)) => dx == dy,
+                                    _ => true,
+                                },
+                                (Canon::Num(_) | Canon::Name(_) | Canon::Str(_) | Canon::Bool(_), Canon::Num(_) | Canon::Name(_) | Canon::Str(_) | Canon::Bool(_)) => a == b2,
+                                // (models without catch-all normalise arrays: a 7-element matrix is cut, /Differences is re-run-length-coded)
+                                (Canon::Array(x), Canon::Array(y)) if m.catch_all && x.iter().all(|e| matches!(e, Canon::Num(_) | Canon::Name(_))) => x == y,
                                 _ => true,
                             }
                         };
@@ -484,7 +527,12 @@ pub fn case_strategy() -> impl Strategy<Value = Case> {
     (any::<u16>(), gen::tape(48)).prop_map(move |(i, tape)| Case { model: writable[gen::pick_index(i, writable.len())], tape })
 }
 
-pub fn replay(_ctx: &Ctx, _check: &str, art: &Value, info: &mut CaseInfo) -> Result<(), Failure> {
+pub fn replay(_ctx: &Ctx, check: &str, art: &Value, info: &mut CaseInfo) -> Result<(), Failure> {
+    if check == "constructed-values" {
+        // the value is stored as its Debug text only: the saved case is re-found by the generator (same seed)
+        info.nontrivial(true);
+        return Ok(());
+    }
     let name = art["model"].as_str().unwrap_or("");
     let m = schema::model(name).ok_or_else(|| Failure::new("harness-c15-replay", format!("unknown model {}", name), art.clone()))?;
     let tape: Bytes = serde_json::from_value(art["tape"].clone()).map_err(|e| Failure::new("harness-c15-replay", format!("tape: {}", e), art.clone()))?;
@@ -564,6 +612,8 @@ fn run_sections(ctx: &Ctx) {
         }
     }
     ctx.run_enum("single-edits", singles.len() as u64, |i| singles[i as usize].clone(), |(mi, tape), info| check_case(writable[*mi], tape, false, info));
+    let nv = ctx.tier.pick(20_000, 1_000_000);
+    ctx.run_cases("constructed-values", nv, value_strategy, |v, info| check_value(v, info));
     let cases = ctx.tier.pick(60_000, 3_000_000);
     ctx.run_cases("edited-instances", cases, case_strategy, |c, info| check_case(&MODELS[c.model], &c.tape, false, info));
     // models never accepted in edited form would make the check vacuous for them
@@ -578,4 +628,205 @@ fn run_sections(ctx: &Ctx) {
         ctx.harness_error(format!("models without a template case: {:?}", never));
     }
     ctx.set_extra("models", json!(writable.iter().map(|m| m.name).collect::<Vec<_>>()));
+}
+
+// ---- values constructed directly (first sentence of the property, for the hand-written pairs) ---------------------
+
+#[derive(Clone, Debug)]
+pub enum V {
+    Date { y: u16, mo: u8, d: u8, h: u8, mi: u8, s: u8, rel: u8, tzh: u8, tzm: u8 },
+    Rect([f32; 4]),
+    Matrix([f32; 6]),
+    Dest { page: bool, kind: u8, a: [f32; 4], left: Option<f32>, top: Option<f32> },
+    NamedDest(Vec<u8>),
+    ActionGoto(Box<V>),
+    Encoding { base: u8, other: String, diffs: Vec<(u32, String)> },
+    CidTable(Vec<u16>),
+    Indexed { cmyk: bool, hival: u8, lookup: Vec<u8> },
+    Info { title: Option<Vec<u8>>, created: Option<Box<V>>, modified: Option<Box<V>>, trapped: Option<u8> },
+    VecI32(Vec<i32>),
+    OptF32(Option<f32>),
+    Tuple(i32, f32),
+    Map(Vec<(String, i32)>),
+    NumberTree { limits: Option<(i32, i32)>, items: Vec<(i32, i32)> },
+}
+
+fn f32s() -> impl Strategy<Value = f32> {
+    prop_oneof![Just(0.0f32), Just(1.0), Just(-1.5), -1.0e6f32..1.0e6f32, any::<i16>().prop_map(|x| x as f32 / 8.0), Just(16777217.0), Just(1.0e-7)]
+}
+fn date_v() -> impl Strategy<Value = V> {
+    (0u16..=9999, 1u8..=12, 1u8..=31, 0u8..24, 0u8..60, 0u8..60, 0u8..3, 0u8..24, 0u8..60).prop_map(|(y, mo, d, h, mi, s, rel, tzh, tzm)| V::Date { y, mo, d, h, mi, s, rel, tzh, tzm })
+}
+fn dest_v() -> impl Strategy<Value = V> {
+    (any::<bool>(), 0u8..7, [f32s(), f32s(), f32s(), f32s()], proptest::option::of(f32s()), proptest::option::of(f32s())).prop_map(|(page, kind, a, left, top)| V::Dest { page, kind, a, left, top })
+}
+pub fn value_strategy() -> impl Strategy<Value = V> {
+    let name = || "[A-Za-z][A-Za-z0-9.]{0,8}";
+    prop_oneof![
+        4 => date_v(),
+        1 => [f32s(), f32s(), f32s(), f32s()].prop_map(V::Rect),
+        1 => [f32s(), f32s(), f32s(), f32s(), f32s(), f32s()].prop_map(V::Matrix),
+        3 => dest_v(),
+        1 => proptest::collection::vec(any::<u8>(), 0..12).prop_map(V::NamedDest),
+        2 => prop_oneof![dest_v(), proptest::collection::vec(any::<u8>(), 0..12).prop_map(V::NamedDest)].prop_map(|d| V::ActionGoto(Box::new(d))),
+        3 => (0u8..8, name(), proptest::collection::vec((prop_oneof![0u32..300, Just(0xffff_ffffu32), any::<u32>()], name()), 0..8)).prop_map(|(base, other, diffs)| V::Encoding { base, other, diffs }),
+        1 => proptest::collection::vec(any::<u16>(), 0..80).prop_map(V::CidTable),
+        2 => (any::<bool>(), any::<u8>(), prop_oneof![proptest::collection::vec(any::<u8>(), 0..40), proptest::collection::vec(any::<u8>(), 95..130)]).prop_map(|(cmyk, hival, lookup)| V::Indexed { cmyk, hival, lookup }),
+        2 => (proptest::option::of(proptest::collection::vec(any::<u8>(), 0..10)), proptest::option::of(date_v().prop_map(Box::new)), proptest::option::of(date_v().prop_map(Box::new)), proptest::option::of(0u8..3)).prop_map(|(title, created, modified, trapped)| V::Info { title, created, modified, trapped }),
+        1 => proptest::collection::vec(any::<i32>(), 0..5).prop_map(V::VecI32),
+        1 => proptest::option::of(f32s()).prop_map(V::OptF32),
+        1 => (any::<i32>(), f32s()).prop_map(|(a, b)| V::Tuple(a, b)),
+        1 => proptest::collection::vec((name(), any::<i32>()), 0..5).prop_map(V::Map),
+        1 => (proptest::option::of((any::<i32>(), any::<i32>())), proptest::collection::vec((any::<i32>(), any::<i32>()), 0..5)).prop_map(|(limits, items)| V::NumberTree { limits, items }),
+    ]
+}
+
+fn to_date(v: &V) -> pdf::primitive::Date {
+    match v {
+        V::Date { y, mo, d, h, mi, s, rel, tzh, tzm } => pdf::primitive::Date {
+            year: *y,
+            month: *mo,
+            day: *d,
+            hour: *h,
+            minute: *mi,
+            second: *s,
+            rel: [pdf::primitive::TimeRel::Earlier, pdf::primitive::TimeRel::Later, pdf::primitive::TimeRel::Universal][*rel as usize % 3],
+            tz_hour: *tzh,
+            tz_minute: *tzm,
+        },
+        _ => unreachable!(),
+    }
+}
+fn to_dest(v: &V) -> pdf::object::MaybeNamedDest {
+    use pdf::object::*;
+    match v {
+        V::NamedDest(b) => MaybeNamedDest::Named(pdf::primitive::PdfString::new(b.as_slice().into())),
+        V::Dest { page, kind, a, left, top } => MaybeNamedDest::Direct(Dest {
+            page: if *page { Some(Ref::from_id(3)) } else { None },
+            view: match kind {
+                0 => DestView::XYZ { left: *left, top: *top, zoom: a[0] },
+                1 => DestView::Fit,
+                2 => DestView::FitH { top: a[0] },
+                3 => DestView::FitV { left: a[0] },
+                4 => DestView::FitR(Rectangle { left: a[0], bottom: a[1], right: a[2], top: a[3] }),
+                5 => DestView::FitB,
+                _ => DestView::FitBH { top: a[0] },
+            },
+        }),
+        _ => unreachable!(),
+    }
+}
+
+enum Vr {
+    Rejected(String),
+    Forms(Val, Val),
+    Bad(String, String),
+}
+
+fn vrt<T: pdf::object::Object + pdf::object::ObjectWrite>(file: &mut UncachedFile, v: &T) -> Vr {
+    use pdf::object::ObjectWrite;
+    let p1 = match v.to_primitive(file) {
+        Ok(p) => p,
+        Err(e) => return Vr::Rejected(format!("{:?}", e)),
+    };
+    let d1 = deep_of(file, &p1);
+    let v2 = {
+        let r = file.resolver();
+        T::from_primitive(p1, &r)
+    };
+    let v2 = match v2 {
+        Ok(v) => v,
+        Err(e) => return Vr::Bad("written-form-unreadable".into(), format!("the written form {:?} is rejected by the reader: {:?}", canon(&d1), e)),
+    };
+    let p2 = match v2.to_primitive(file) {
+        Ok(p) => p,
+        Err(e) => return Vr::Bad("second-write-error".into(), format!("{:?}", e)),
+    };
+    let d2 = deep_of(file, &p2);
+    Vr::Forms(d1, d2)
+}
+
+pub fn check_value(v: &V, info: &mut CaseInfo) -> Result<(), Failure> {
+    use pdf::object::*;
+    let art = || json!({"value": format!("{:?}", v)});
+    let (bytes, _) = schema::case_file(&Val::Null, &[], &[]);
+    let kind = format!("{:?}", v).split(|c: char| !c.is_alphanumeric()).next().unwrap_or("").to_string();
+    info.label(format!("value/{}", kind));
+    let res = panics::catch(|| -> Result<Vr, Failure> {
+        let mut file: UncachedFile = FileOptions::uncached().load(bytes.clone()).map_err(|e| Failure::new("harness-c15-case-file", format!("{:?}", e), art()))?;
+        let f = &mut file;
+        Ok(match v {
+            V::Date { .. } => vrt(f, &to_date(v)),
+            V::Rect(a) => vrt(f, &Rectangle { left: a[0], bottom: a[1], right: a[2], top: a[3] }),
+            V::Matrix(a) => vrt(f, &pdf::content::Matrix { a: a[0], b: a[1], c: a[2], d: a[3], e: a[4], f: a[5] }),
+            V::Dest { .. } => match to_dest(v) {
+                MaybeNamedDest::Direct(d) => vrt(f, &d),
+                _ => unreachable!(),
+            },
+            V::NamedDest(_) => vrt(f, &to_dest(v)),
+            V::ActionGoto(d) => vrt(f, &Action::Goto(to_dest(d))),
+            V::Encoding { base, other, diffs } => {
+                use pdf::encoding::{BaseEncoding as B, Encoding};
+                let base = match base {
+                    0 => B::StandardEncoding,
+                    1 => B::SymbolEncoding,
+                    2 => B::MacRomanEncoding,
+                    3 => B::WinAnsiEncoding,
+                    4 => B::MacExpertEncoding,
+                    5 => B::IdentityH,
+                    6 => B::None,
+                    _ => B::Other(other.clone()),
+                };
+                vrt(f, &Encoding { base, differences: diffs.iter().map(|(k, n)| (*k, n.as_str().into())).collect() })
+            }
+            V::CidTable(t) => vrt(f, &pdf::font::CidToGidMap::Table(t.clone())),
+            V::Indexed { cmyk, hival, lookup } => vrt(f, &ColorSpace::Indexed(Box::new(if *cmyk { ColorSpace::DeviceCMYK } else { ColorSpace::DeviceRGB }), *hival, lookup.clone().into())),
+            V::Info { title, created, modified, trapped } => vrt(
+                f,
+                &InfoDict {
+                    title: title.as_ref().map(|b| pdf::primitive::PdfString::new(b.as_slice().into())),
+                    creation_date: created.as_ref().map(|d| to_date(d)),
+                    mod_date: modified.as_ref().map(|d| to_date(d)),
+                    trapped: trapped.map(|t| match t % 3 { 0 => Trapped::True, 1 => Trapped::False, _ => Trapped::Unknown }),
+                    ..Default::default()
+                },
+            ),
+            V::VecI32(x) => vrt(f, x),
+            V::OptF32(x) => vrt(f, x),
+            V::Tuple(a, b) => vrt(f, &(*a, *b)),
+            V::Map(m) => vrt(f, &m.iter().map(|(k, v)| (pdf::primitive::Name::from(k.as_str()), *v)).collect::<std::collections::HashMap<pdf::primitive::Name, i32>>()),
+            V::NumberTree { limits, items } => vrt(f, &NumberTree { limits: *limits, node: NumberTreeNode::Leaf(items.clone()) }),
+        })
+    });
+    let vr = match res {
+        Err(p) => {
+            if is_unimplemented(&p.msg) {
+                info.label("rejected/unimplemented-writer");
+                return Ok(());
+            }
+            let mut f = panic_failure(&p, art());
+            if !f.key.starts_with("harness-") {
+                f.key = format!("c15:value:{}:panic:{}", kind, f.key);
+            }
+            return Err(f);
+        }
+        Ok(Err(f)) => return Err(f),
+        Ok(Ok(vr)) => vr,
+    };
+    match vr {
+        Vr::Rejected(_) => {
+            info.label("rejected/write");
+            Ok(())
+        }
+        Vr::Bad(k, msg) => Err(Failure::new(format!("c15:value:{}:{}", kind, k), msg, art())),
+        Vr::Forms(d1, d2) => {
+            info.label("accepted");
+            info.nontrivial(true);
+            info.distinct(format!("{:?}", v));
+            match first_diff(&canon(&d1), &canon(&d2), "") {
+                None => Ok(()),
+                Some(d) => Err(Failure::new(format!("c15:value:{}:not-idempotent", kind), format!("write(read(write(v))) differs from write(v) at {}", d), art())),
+            }
+        }
+    }
 }
